@@ -29,6 +29,8 @@ pub trait Probe: Send + Sync {
     fn atomic_after(&self, loc: usize, op: &'static str, old: usize);
     /// Wants mutex `id`; returns when it may take it
     fn mutex_lock(&self, id: usize);
+    /// Tries to take mutex `id` without blocking; true if it was taken
+    fn mutex_try_lock(&self, id: usize) -> bool;
     /// Has released mutex `id`
     fn mutex_unlock(&self, id: usize);
     /// Waits on condvar `cv` having released `mutex`; returns when
@@ -230,8 +232,28 @@ pub mod sync {
                 })),
             }
         }
+        pub fn try_lock(&self) -> TryLockResult<MutexGuard<'_, T>> {
+            if let Some(p) = probe() {
+                if !p.mutex_try_lock(self.id()) {
+                    return Err(TryLockError::WouldBlock);
+                }
+            }
+            match self.inner.try_lock() {
+                Ok(g) => Ok(MutexGuard { m: self, g: Some(g) }),
+                Err(TryLockError::Poisoned(e)) => Err(TryLockError::Poisoned(PoisonError::new(
+                    MutexGuard {
+                        m: self,
+                        g: Some(e.into_inner()),
+                    },
+                ))),
+                Err(TryLockError::WouldBlock) => Err(TryLockError::WouldBlock),
+            }
+        }
         pub fn is_poisoned(&self) -> bool {
             self.inner.is_poisoned()
+        }
+        pub fn clear_poison(&self) {
+            self.inner.clear_poison()
         }
         pub fn get_mut(&mut self) -> LockResult<&mut T> {
             self.inner.get_mut()
@@ -302,6 +324,19 @@ pub mod sync {
                     })),
                 }
             }
+        }
+        pub fn wait_while<'a, T, F>(
+            &self,
+            mut guard: MutexGuard<'a, T>,
+            mut condition: F,
+        ) -> LockResult<MutexGuard<'a, T>>
+        where
+            F: FnMut(&mut T) -> bool,
+        {
+            while condition(&mut *guard) {
+                guard = self.wait(guard)?;
+            }
+            Ok(guard)
         }
         pub fn notify_all(&self) {
             if let Some(p) = probe() {
